@@ -228,9 +228,126 @@ def run_registers(unit, em):
                     em.violation(r, txt, 'the argument register `%s` is read here although an iteration of the frame loop can reach this point without assigning it: it then still holds the argument of the last emulated call of an earlier iteration, not the data of this frame (use the frame field restored into it by the return sequence)' % name, 'register')
 
 
+# ---- clause `restore`: a register that is live across an emulated call is restored from the frame by every return sequence
+def run_restore(unit, em):
+    """Callee-saved registers = locals R saved into the frame right after `push(top)` (`top.F = R`).  The callee overwrites
+    them for its own sub-calls.  If some emulated return point (a label the return switch jumps to) can reach a read of R
+    without an assignment to R, then R is live across the call and every return sequence must put the caller's value back
+    (`R = top.F`) before `pop(top)` hands the frame back.  Otherwise the caller continues with the argument of the callee's
+    last sub-call (seed C01-9: the sub-check result was memoised under a stale state)."""
+    for fn in unit.functions:
+        if fn.body is None:
+            continue
+        pushes = [c for c in fn.calls() if c['k'] == 'CXXMemberCallExpr' and (c.get('q') or '').endswith('ExpandCallEmulator::push')]
+        pops = [c for c in fn.calls() if c['k'] == 'CXXMemberCallExpr' and (c.get('q') or '').endswith('ExpandCallEmulator::pop')]
+        if not pushes or not pops:
+            continue
+        cfg = fn.cfg()
+        if cfg is None:
+            continue
+
+        def block_of(call):
+            par, cur = call.get('_p'), call
+            while par is not None and par['k'] != 'CompoundStmt':
+                cur, par = par, par.get('_p')
+            return par, cur
+
+        def assign(sn):
+            a = strip(sn)
+            if a is not None and a['k'] in ('BinaryOperator', 'CXXOperatorCallExpr') and a.get('op') == '=':
+                ops = a.get('ch') if a['k'] == 'BinaryOperator' else a.get('args')
+                if ops and len(ops) == 2:
+                    return strip(ops[0]), strip(ops[1])
+            return None
+        saved = {}      # register decl -> (name, frame field)
+        for pc in pushes:
+            topd = (strip(pc['args'][0]) or {}).get('d') if pc.get('args') else None
+            blk, stmt = block_of(pc)
+            if blk is None or topd is None:
+                continue
+            after = False
+            for sn in blk.get('ch', []):
+                if sn is stmt:
+                    after = True
+                    continue
+                if not after:
+                    continue
+                lr = assign(sn)
+                if not lr:
+                    continue
+                l, r = lr
+                if l is not None and l['k'] == 'MemberExpr' and (strip((l.get('ch') or [None])[0]) or {}).get('d') == topd and r is not None and r['k'] == 'DeclRefExpr' and r.get('dk') == 'local':
+                    saved[r['d']] = (r.get('n'), l.get('n'))
+        if not saved:
+            continue
+        # emulated return points: labels targeted from a switch
+        ret_labels = set()
+        for sw in fn.walk(lambdas=False):
+            if sw['k'] == 'SwitchStmt':
+                for g in walk(sw):
+                    if g['k'] == 'GotoStmt':
+                        ret_labels.add(g.get('d'))
+        labels = [n for n in fn.walk(lambdas=False) if n['k'] == 'LabelStmt' and n.get('d') in ret_labels]
+        for d, (name, field) in sorted(saved.items()):
+            def is_def(n, d=d):
+                lr = assign(n) if n['k'] in ('BinaryOperator', 'CXXOperatorCallExpr') else None
+                return bool(lr) and lr[0] is not None and lr[0].get('d') == d and lr[0]['k'] == 'DeclRefExpr'
+
+            def is_read(n, d=d):
+                if n['k'] != 'DeclRefExpr' or n.get('d') != d:
+                    return False
+                p = n.get('_p')
+                while p is not None and p['k'] in ('ImplicitCastExpr', 'ParenExpr'):
+                    p = p.get('_p')
+                if p is not None and p['k'] in ('BinaryOperator', 'CXXOperatorCallExpr') and p.get('op') == '=':
+                    ops = p.get('ch') if p['k'] == 'BinaryOperator' else p.get('args')
+                    if ops and strip(ops[0]) is n:
+                        return False
+                return True
+            live_at = None
+            for lab in labels:
+                inner = (lab.get('ch') or [None])[0] if lab.get('ch') else lab.get('sub')
+                pos = cfg.locate(lab) or (cfg.locate(inner) if is_node(inner) else None)
+                if pos is None:
+                    # the label itself is no CFG element: start at the first located node below it
+                    for m in walk(lab):
+                        if m is not lab and cfg.locate(m) is not None:
+                            pos = cfg.locate(m)
+                            break
+                if pos is None:
+                    continue
+                ok, w = must_pass_through(cfg, pos, is_read, is_def, start_after=False)
+                if not ok:
+                    live_at = (lab, w)
+                    break
+            for pc in pops:
+                topd = (strip(pc['args'][0]) or {}).get('d') if pc.get('args') else None
+                blk, stmt = block_of(pc)
+                if blk is None:
+                    continue
+                restored = False
+                for sn in blk.get('ch', []):
+                    if sn is stmt:
+                        break
+                    lr = assign(sn)
+                    if lr and lr[0] is not None and lr[0].get('d') == d and lr[1] is not None and lr[1]['k'] == 'MemberExpr' and lr[1].get('n') == field and \
+                            (strip((lr[1].get('ch') or [None])[0]) or {}).get('d') == topd:
+                        restored = True
+                txt = 'return sequence at line %d: register %s' % (unit.loc(pc)[1], name)
+                if restored:
+                    em.ok(pc, txt, 'restored from top.%s before the frame is popped' % field, 'restore')
+                elif live_at is None:
+                    em.ok(pc, txt, 'not restored, and no return point reads it before assigning it', 'restore')
+                else:
+                    em.violation(pc, txt, '`%s` is saved into the frame at the emulated call (top.%s = %s) and the callee overwrites it for its own sub-calls; after the return point `%s` it is read at line %d '
+                                 'without having been assigned, but this return sequence pops the frame without `%s = top.%s`: the caller continues with the argument of the callee\'s last sub-call' % (
+                                     name, field, name, live_at[0].get('n'), unit.loc(live_at[1])[1] if live_at[1] else 0, name, field), 'restore')
+
+
 _run_frames = run
 
 
 def run(unit, em):
     _run_frames(unit, em)
     run_registers(unit, em)
+    run_restore(unit, em)
